@@ -20,6 +20,7 @@ CFG_GUARD = "#[cfg(any(kani, verif_replay))]"
 
 ENV_BASE = dict(os.environ, CARGO_NET_OFFLINE="true", CARGO_TERM_COLOR="never")
 
+SEED = [0]
 _scratch_dirs = []
 _children = set()
 _children_lock = threading.Lock()
@@ -57,7 +58,7 @@ class Harness:
         self.props = attrs.get("props", "").split(",")
         self.tier = attrs.get("tier", "quick")
         self.cap = int(attrs.get("cap", "600"))
-        self.mem_gb = int(attrs.get("mem", "16"))
+        self.mem_gb = int(attrs.get("mem", "24"))
         self.family = attrs.get("family")
         self.witness = attrs.get("witness")  # key of the known finding this harness witnesses
         self.needs = [x for x in attrs.get("needs", "").split(",") if x]
@@ -190,6 +191,8 @@ def snapshot(dst, kf, mode, notes):
             f.write(f"\n{CFG_GUARD}\n{decl}\n")
     with open(os.path.join(src, "verif", "kf.rs"), "w") as f:
         f.write(kf_consts(kf))
+    with open(os.path.join(src, "verif", "seed.rs"), "w") as f:
+        f.write(f"//! generated: VERIF_SEED of this run\npub const SEED: u64 = {SEED[0]};\n")
     if mode == "kani":
         from rewrites import apply_rewrites
         apply_rewrites(src, notes)
@@ -244,7 +247,7 @@ RE_COVER = re.compile(r"\*\* (\d+) of (\d+) cover properties satisfied")
 
 
 def parse_kani_log(text):
-    r = {"status": None, "failed_checks": [], "checks_total": 0, "checks_failed": 0,
+    r = {"status": None, "cbmc_crash": None, "failed_checks": [], "checks_total": 0, "checks_failed": 0,
          "cover_sat": 0, "cover_total": 0, "cover_unsat": [], "verif_time_s": None,
          "solver_s": None, "symex_s": None, "vars": None, "clauses": None, "steps": None,
          "vccs": None, "playback": [], "unwind_fail": False, "unsupported": [],
@@ -253,6 +256,11 @@ def parse_kani_log(text):
     for i, l in enumerate(lines):
         if l.startswith("VERIFICATION:- "):
             r["status"] = l.split("VERIFICATION:- ")[1].strip().split()[0]
+        m = re.match(r"CBMC failed with status (\d+)", l)
+        if m:
+            r["cbmc_crash"] = int(m.group(1))
+        if l.startswith("CBMC timed out"):
+            r["cbmc_crash"] = -1
         m = RE_FAILED.match(l)
         if m:
             loc = lines[i + 1].strip() if i + 1 < len(lines) else ""
@@ -339,6 +347,8 @@ def classify(h, res, rc, timed_out):
     """-> 'holds' | 'fails' | 'inconclusive', reason"""
     if timed_out:
         return "inconclusive", f"timeout after {h.cap}s"
+    if res["cbmc_crash"] is not None:
+        return "inconclusive", f"CBMC aborted (status {res['cbmc_crash']}): out of memory under the {h.mem_gb} GB limit or solver crash"
     if res["status"] is None:
         return "inconclusive", f"no verdict (exit {rc}): build error, OOM or solver crash"
     if res["unwind_fail"] or any("unwinding assertion" in c["desc"] for c in res["failed_checks"]):
@@ -447,6 +457,7 @@ def main(argv):
         seed = int(os.environ.get("VERIF_SEED", "0"))
     except ValueError:
         seed = 0
+    SEED[0] = seed & 0xFFFFFFFF
     prop = a.prop
     t_start = time.time()
     signal.signal(signal.SIGTERM, _on_signal)
@@ -472,6 +483,9 @@ def main(argv):
     notes = []
     log(f"[check] property={prop} tier={a.tier} seed={seed} harnesses={len(sel)} scratch={scratch}")
     snap = snapshot(os.path.join(scratch, "snap"), kf, "kani", notes)
+    # the unrewritten twin for native replay is taken at the same moment (same /repo state)
+    replayer = Replayer(scratch, kf, [])
+    replayer.ensure()
     logdir = os.path.join(VERIF, "logs", prop)
     shutil.rmtree(logdir, ignore_errors=True)
     os.makedirs(logdir, exist_ok=True)
@@ -490,6 +504,7 @@ def main(argv):
         q.put(h)
     results = {}
     rlock = threading.Lock()
+    playback_lock = threading.Lock()
 
     def worker(wi):
         tdir = os.path.join(scratch, f"t{wi}")
@@ -510,9 +525,11 @@ def main(argv):
             rc, to, dt = run_cmd(kani_cmd(h, tdir, False), snap, ENV_BASE, cap, logp, h.mem_gb)
             text = open(logp, errors="replace").read()
             res = parse_kani_log(text)
-            if res["status"] == "FAILED" and not to:
+            if res["status"] == "FAILED" and not to and res["cbmc_crash"] is None and res["failed_checks"]:
                 logp2 = os.path.join(logdir, h.name + ".playback.log")
-                rc2, to2, dt2 = run_cmd(kani_cmd(h, tdir, True), snap, ENV_BASE, cap * 2, logp2, h.mem_gb)
+                # kani-driver needs several GB (up to tens) to parse CBMC's JSON trace: one at a time, 48 GB
+                with playback_lock:
+                    rc2, to2, dt2 = run_cmd(kani_cmd(h, tdir, True), snap, ENV_BASE, max(cap * 2, 1800), logp2, 48)
                 res2 = parse_kani_log(open(logp2, errors="replace").read())
                 res["playback"] = res2["playback"]
                 dt += dt2
@@ -533,7 +550,6 @@ def main(argv):
         t.join()
 
     # ---- replay failures natively -------------------------------------------------------
-    replayer = Replayer(scratch, kf, notes)
     open_by_key = {e["key"]: e for e in kf.get("open", [])}
     violations, known_lines, inconclusive = [], [], []
     os.makedirs(os.path.join(VERIF, "replays", prop), exist_ok=True)
